@@ -9,10 +9,10 @@ pub fn prop() -> Prop {
     Prop {
         id: "C18",
         level: "model_checking",
-        rule: "(8 base expressions and 3 big ones: nesting depth 33, a 300-character literal, 130 arguments) paths ending in a separator (.a. / .a.b# / (len .a.)) in every position; every foreign output option next to every option of the style's own group; every corrupted configuration alone and next to each of 8 valid neighbour options (--take 0/1, --skip, --unique, --merge, --only-objects-and-arrays, a regex cache, --on-error=panic); valid configurations = 7 option positions (--select, --filter, --split-by, --group-by, --sort-by, --set variable, --set macro) x 8 base expressions x 6 output styles (+ every pure function with a canonical argument list in every position, json style); corruptions (one fault each): truncation at EVERY byte offset that lies inside parentheses or a string, one '(' or ')' too many, unknown function name, arity min-1 / max+1 for every function, trailing garbage of 4 kinds, bad sort directions, malformed --set (no '=', empty name, empty macro name, duplicate, empty value), output options of another style, csv without selections / with grouping / with merge, --headers without selections, invalid enum and numeric option values; non-trivial = the uncorrupted configuration runs Ok and prints >= 1 byte; distinct by construction; every arrangement of <=4 --set options over {a=1, a=2, @a=1, @a=.x, b=1} that binds the same variable or the same macro twice; references /K/ and /Full name/ to a selected name cut anywhere before their closing slash (bare, inside a call, last argument, pipe stage) in 8 option positions; unparsable expressions given as a separate word behind every long, second long and short name of the five expression options, with the input in files named before or after the option, under three --on-error policies",
+        rule: "(8 base expressions and 3 big ones: nesting depth 33, a 300-character literal, 130 arguments) paths ending in a separator (.a. / .a.b# / (len .a.)) in every position; every foreign output option next to every option of the style's own group; every corrupted configuration alone and next to each of 8 valid neighbour options (--take 0/1, --skip, --unique, --merge, --only-objects-and-arrays, a regex cache, --on-error=panic), and - for the repeatable --select and --sort-by - after a valid occurrence of the same option with the uncorrupted expression (directly, and with another occurrence in between); valid configurations = 7 option positions (--select, --filter, --split-by, --group-by, --sort-by, --set variable, --set macro) x 8 base expressions x 6 output styles (+ every pure function with a canonical argument list in every position, json style); corruptions (one fault each): truncation at EVERY byte offset that lies inside parentheses or a string, one '(' or ')' too many, unknown function name, arity min-1 / max+1 for every function, trailing garbage of 4 kinds, bad sort directions, malformed --set (no '=', empty name, empty macro name, duplicate, empty value), output options of another style, csv without selections / with grouping / with merge, --headers without selections, invalid enum and numeric option values; non-trivial = the uncorrupted configuration runs Ok and prints >= 1 byte; distinct by construction; every arrangement of <=4 --set options over {a=1, a=2, @a=1, @a=.x, b=1} that binds the same variable or the same macro twice; references /K/ and /Full name/ to a selected name cut anywhere before their closing slash (bare, inside a call, last argument, pipe stage) in 8 option positions; unparsable expressions given as a separate word behind every long, second long and short name of the five expression options, with the input in files named before or after the option, under three --on-error policies",
         explanation: "each corrupted configuration is executed on a non-empty input; oracle: Err (or clap usage error), zero bytes on stdout, the stdin factory is never invoked",
         assumptions: COMMON_ASSUMPTIONS.to_vec(),
-        guards: vec!["trailing-blank-that-is-not-white-space", "bad-expression-as-a-separate-word-after-file-names", "truncated-selected-name-reference", "duplicate-set-with-another-binding-in-between", "dangling-path-separator", "with-a-neighbour-option", "truncation", "arity", "trailing-garbage", "set-malformed", "style-mismatch", "csv-without-selection", "valid-config-prints"],
+        guards: vec!["after-a-valid-occurrence-of-the-same-option", "trailing-blank-that-is-not-white-space", "bad-expression-as-a-separate-word-after-file-names", "truncated-selected-name-reference", "duplicate-set-with-another-binding-in-between", "dangling-path-separator", "with-a-neighbour-option", "truncation", "arity", "trailing-garbage", "set-malformed", "style-mismatch", "csv-without-selection", "valid-config-prints"],
         budget_s: (100, 900),
         single_worker: false,
         run,
@@ -136,8 +136,32 @@ fn bad_cuts_all(e: &str) -> Vec<usize> {
 /// with each of these neighbours (validation that is skipped or reordered because of another option shows here)
 const NEIGHBOURS: [&str; 10] = ["--take=0", "--take=1", "--skip=1", "--unique", "--merge", "--only-objects-and-arrays", "--regular-expression-cache-size=1", "--on-error=panic", "--on-error=stdout", "--on-error=stderr"];
 
+thread_local! {
+    /// (option prefix, a valid occurrence of that option with the uncorrupted expression) while the corruptions of a
+    /// repeatable option are being tried
+    static TWIN: std::cell::RefCell<Option<(&'static str, String)>> = const { std::cell::RefCell::new(None) };
+}
+
 fn judge(ctx: &mut Ctx, kind: &str, detail: &str, args: Vec<String>, nontrivial: bool) {
     judge_one(ctx, kind, detail, args.clone(), nontrivial);
+    // a repeatable option: the faulty occurrence stays faulty when a valid occurrence with the same expression was given
+    // before it (directly, or with another occurrence in between) - what was "seen already" must still be validated
+    if let Some((prefix, valid)) = TWIN.with(|t| t.borrow().clone()) {
+        if let Some(i) = args.iter().position(|a| a.starts_with(prefix)) {
+            if args[i] != valid {
+                let other = if prefix == "--sort-by=" { "--sort-by=.zz=DESC" } else { "--select=.zz=other" };
+                for between in [false, true] {
+                    let mut a = args.clone();
+                    if between {
+                        a.insert(i, other.to_string());
+                    }
+                    a.insert(i, valid.clone());
+                    ctx.guard("after-a-valid-occurrence-of-the-same-option");
+                    judge_one(ctx, &format!("{kind} after a valid occurrence of the same option"), detail, a, nontrivial);
+                }
+            }
+        }
+    }
     for n in NEIGHBOURS {
         let name = n.split('=').next().unwrap_or("");
         if args.iter().any(|a| a.starts_with(name)) || (n == "--merge" && args.iter().any(|a| a.starts_with("--group-by"))) {
@@ -214,6 +238,13 @@ fn run(ctx: &mut Ctx) {
                     continue;
                 }
                 let valid = with_expr(pos, base, style);
+                TWIN.with(|t| {
+                    *t.borrow_mut() = match *pos {
+                        "sort" => Some(("--sort-by=", format!("--sort-by={base}"))),
+                        "select" => Some(("--select=", format!("--select={base}=col"))),
+                        _ => None,
+                    }
+                });
                 let vo = ctx.run(&Case::owned(valid.clone(), INPUT.to_vec()));
                 ctx.case_done();
                 if !vo.res.is_ok() {
@@ -286,6 +317,7 @@ fn run(ctx: &mut Ctx) {
             }
         }
     }
+    TWIN.with(|t| *t.borrow_mut() = None);
     ctx.level_done("expression-corruptions-in-every-position-and-style");
 
     // 2. arity and unknown-name for every function, in every position (json style)
